@@ -159,6 +159,11 @@ def run_impl(case_lines, tag):
                 started = None
         if p.returncode == 0 and done == len(pending):
             break
+        if done >= len(pending):
+            # every case was answered, yet the child exited non-zero: a report printed at exit
+            # (race detector, runtime fatal error in a leftover goroutine). Blame the last case.
+            done = len(pending) - 1
+            results.pop()
         # the child died while running pending[done]
         crashed = pending[done]
         m = re.search(r"(WARNING: DATA RACE|panic: .*|fatal error: .*)", err)
